@@ -3,6 +3,7 @@ package props
 import (
 	"fmt"
 	"go/token"
+	"go/types"
 	"sort"
 	"strings"
 
@@ -161,6 +162,64 @@ var dbFieldsReadable = map[string]string{
 	"batchWriteLatencyHisto": "metric",
 }
 
+// classifyDbField sorts a field of the db object by its type: the replicated store, harmless
+// infrastructure (metrics, logger), a local helper object, or plain data.
+func classifyDbField(t types.Type) string {
+	if p, ok := t.(*types.Pointer); ok {
+		t = p.Elem()
+	}
+	n, ok := types.Unalias(t).(*types.Named)
+	if !ok || n.Obj().Pkg() == nil {
+		return "data"
+	}
+	pk := n.Obj().Pkg().Path()
+	switch {
+	case strings.HasSuffix(pk, "server/kv") && n.Obj().Name() == "KV":
+		return "store"
+	case strings.HasSuffix(pk, "common/metric"), pk == "log/slog", strings.Contains(pk, "opentelemetry"):
+		return "harmless"
+	case pk == "sync/atomic", pk == "sync", pk == "time":
+		return "data"
+	}
+	if _, isIface := n.Underlying().(*types.Interface); isIface {
+		return "local-object"
+	}
+	if _, isStruct := n.Underlying().(*types.Struct); isStruct {
+		return "local-object"
+	}
+	return "data"
+}
+
+// consumedResult: a method call on the loaded object whose result is used.
+func consumedResult(obj ssa.Value) ssa.CallInstruction {
+	if obj.Referrers() == nil {
+		return nil
+	}
+	for _, r := range *obj.Referrers() {
+		ci, ok := r.(ssa.CallInstruction)
+		if !ok {
+			continue
+		}
+		isRecv := ci.Common().IsInvoke() && ci.Common().Value == obj
+		if !isRecv && len(ci.Common().Args) > 0 && ci.Common().Args[0] == obj && ci.Common().StaticCallee() != nil && ci.Common().StaticCallee().Signature.Recv() != nil {
+			isRecv = true
+		}
+		if !isRecv {
+			continue
+		}
+		v, isVal := ci.(ssa.Value)
+		if !isVal || v.Referrers() == nil {
+			continue
+		}
+		for _, rr := range *v.Referrers() {
+			if _, dbg := rr.(*ssa.DebugRef); !dbg {
+				return ci
+			}
+		}
+	}
+	return nil
+}
+
 func ruleR06b(h *H) {
 	const rule = "R06b"
 	h.Rule(rule, "K9", "functions reachable from ProcessWrite read no package-level variable that is ever re-assigned after initialisation, and only the frozen set of fields of the db object", 2)
@@ -203,7 +262,19 @@ func ruleR06b(h *H) {
 			}
 			if ref, ok := ir.FieldAddrOf(u.X); ok && ref.Struct != nil && ref.Struct.Obj().Name() == dbt && ir.RelPkg(ref.Struct.Obj().Pkg().Path()) == "server/kv" {
 				fieldsSeen[ref.Field] = true
-				if _, ok := dbFieldsReadable[ref.Field]; !ok {
+				class := classifyDbField(u.Type())
+				_, listed := dbFieldsReadable[ref.Field]
+				switch {
+				case class == "store" || class == "harmless":
+				case class == "local-object":
+					// subscriber trackers and the like are local, not replicated state: the apply
+					// code may notify them, but nothing they hand back may influence the result
+					if used := consumedResult(u); used != nil {
+						badF++
+						h.Bad(rule, fmt.Sprintf("value read from db.%s in %s", ref.Field, ir.FuncName(f)), h.pos(used), "the result of "+describeCallee(used.Common())+" on db."+ref.Field+" is used while applying a logged request: that object is local to the node (not part of the replicated store, empty after a restart or a snapshot install), so replicas compute different results")
+					}
+				case listed:
+				default:
 					badF++
 					h.Bad(rule, fmt.Sprintf("read of db.%s in %s", ref.Field, ir.FuncName(f)), h.pos(in), "field db."+ref.Field+" is read while applying a logged request but is not in the frozen table of replicated / harmless fields")
 				}
@@ -440,6 +511,12 @@ func ruleR06e(h *H) {
 	if n == 0 {
 		h.Anchor(rule, "pebble Checkpoint call in server/kv")
 	}
+	ruleAppliedOffsetProvenance(h, rule)
+}
+
+// ruleAppliedOffsetProvenance (shared with C07): the follower's applied commit offset is
+// only assigned from the installed DB or from the offset of an entry just applied.
+func ruleAppliedOffsetProvenance(h *H, rule string) {
 	// receiver: followerController.commitOffset writers
 	ft := h.implType(rule, "server", "FollowerController")
 	if ft == nil {
